@@ -31,10 +31,12 @@ SHARDS = {"quick": 8, "thorough": 16}
 TIMEOUT_S = {"quick": 900, "thorough": 3600}
 BUDGET_S = {"quick": 150, "thorough": 1800}
 RULE = ("scenarios = {seed, event-queue (LLSD and garbage body), wrapper, proxy-only, temporary, plain asset, login, upload, "
-        "unknown URL} x {request, response} x addon behaviours {ignore, take and release later, inject response, rewrite URL, "
-        "raise, retarget cap data, disable streaming}; each scenario is run once cleanly and once per function entered inside "
-        "the handlers (failpoint raising there). quick: every 3rd failpoint per scenario, thorough: all. distinct_nontrivial = "
-        "distinct (scenario, failpoint function) pairs")
+        "unknown URL} x {request, response} x addon behaviours {ignore, take and release later, take and resume inside the hook, "
+        "resume inside the hook, take then raise, inject response, rewrite URL, raise, retarget cap data, disable streaming, "
+        "return True}; each scenario is run once cleanly and once per function entered inside the handlers (failpoint raising "
+        "there; quick: every 3rd failpoint per scenario, thorough: all); + the mitmproxy-side callback pump (good / corrupt state / "
+        "unknown event / preempt / two flows) and whole request+response cycles through both sides x {viewer, proxy-injected, "
+        "browser} origins. distinct_nontrivial = distinct (scenario, failpoint function) pairs + end-to-end combinations")
 ASSUMPTIONS = [
     "a failpoint is any repository function entered while _handle_request/_handle_response is on the stack (including "
     "addon dispatch and the hooks' own calls); the cross-process hand-back code itself (resume/get_state) is not faulted",
